@@ -1,1 +1,22 @@
-// harness stub
+//! ChainSim: multi-node ABCI driver for the real sequencer `App` (child module of `astria_sequencer::app`, compiled
+//! only with `--features verif` in test builds). Serves C01-C07, C14, C15, C18. See /verif/DESIGN.md section 4.
+//!
+//! The harness *records*: genesis, every transaction it built, every CheckTx outcome, every consensus call with
+//! its result on every node, a digest of every node's full state after every commit, and - from the "lab" node, which
+//! replays the decided block through the private steps of `finalize_block` - the key/value diff of the whole state
+//! (verifiable, non-verifiable, ephemeral fees and deposits) around every single transaction, plus trial executions
+//! of transactions that are built to fail. The oracles are the Python checkers in /verif/lib/checkers.
+#![allow(clippy::pedantic, clippy::arithmetic_side_effects, dead_code, unused_imports)]
+
+#[path = "/verif/harness/common/vlog.rs"]
+mod vlog;
+#[path = "/verif/harness/seq/app/gen.rs"]
+mod gen;
+#[path = "/verif/harness/seq/app/sim.rs"]
+mod sim;
+
+/// entry: VERIF_PROFILE selects generator weights; VERIF_HISTORIES / VERIF_BLOCKS bound the run.
+#[tokio::test(flavor = "multi_thread", worker_threads = 2)]
+async fn chain() {
+    sim::run_from_env().await;
+}
